@@ -395,6 +395,19 @@ def s_vec_new(ip, st, fr, name, args, c, site):
     return one(X.ListV([]))
 
 
+@S('std::vec::Vec::<T, A>::clear')
+def s_vec_clear(ip, st, fr, name, args, c, site):
+    r = args[0]
+    while isinstance(r, X.Ref):
+        tv = ip.load(st, r.cell, r.path)
+        if isinstance(tv, X.Ref):
+            r = tv
+        else:
+            break
+    ip.store(st, r.cell, r.path, X.ListV([]))
+    return one(X.UNIT)
+
+
 def listv_of(ip, st, v):
     """view an abstract container as list parts"""
     if isinstance(v, X.ListV):
